@@ -6,6 +6,12 @@ package main
 // action: the triples for which VerifyJSON returned nil and ListKeyIDs per entity.  spec/JSONSign_trace.tla
 // re-derives every line.  The recorder knows nothing about expected results.
 //
+// Besides signatures the runs leave things that are no signatures in the signatures member: ForeignEntry (a value
+// of some form - padded base64, text, number, object, array, null / "" - under some name and key ID, possibly a key
+// ID of another algorithm) and ForeignEntity (signatures[name] as a whole becomes a string / number / array / null).
+// When SignJSON returns an error while such a thing that it cannot carry over is there, the step is logged as
+// SignRefused (nothing was produced); every other error of SignJSON is a failure.
+//
 // Values are logged by identity: equal value trees get equal tokens ("x<n>", per run).
 
 import (
@@ -32,6 +38,7 @@ type recLine struct {
 	Doc  string              `json:"doc,omitempty"`
 	Look string              `json:"look,omitempty"` // dump mode: a member named almost like signatures / unsigned
 	Lone bool                `json:"lone,omitempty"` // dump mode: a member holds a text with a lone surrogate escape put into it
+	Form string              `json:"form,omitempty"` // dump mode: form of an entry of the signatures member that is no signature
 }
 
 var strRunes = []rune{'a', 'b', 'Z', '0', ' ', '"', '\\', '/', '\b', '\f', '\n', '\r', '\t', 0x00, 0x1f, 0x7f, 0x80, 0xe9, 0x301,
@@ -243,6 +250,15 @@ func (r *recRun) remember(l string) {
 	}
 }
 
+// ForeignForms of JSONSign_trace.cfg
+var entryForms = []string{"padded", "text", "scalar", "object", "list", "blank"}
+
+// EntityForms of JSONSign_trace.cfg
+// Only the form every decoder reads as "no signatures of that entity" (null / "") is exercised: whether a string,
+// number or array left under ANOTHER entity's name may make the signer's signature unverifiable is not something the
+// property states (it speaks of further entities adding their SIGNATURES); see DESIGN.md 11.2.
+var entityForms = []string{"blank"}
+
 var presTags = []string{"canon", "ws", "order", "esc", "ws+order", "ws+esc", "order+esc", "all"}
 
 // one random action; returns (op, params) or a failure of a real-code check made while acting
@@ -266,6 +282,10 @@ func (r *recRun) act() (string, []string, *stepFailure) {
 		case x < 25:
 			e, k, p := "E"+strconv.Itoa(1+rng.Intn(3)), "K"+strconv.Itoa(1+rng.Intn(3)), "P"+strconv.Itoa(1+rng.Intn(4))
 			if f := r.d.libSign(r.w.ent[e], r.w.kid[k], r.w.priv[p]); f != nil {
+				if r.d.unreadable() && strings.HasPrefix(f.class, "sign/error/") {
+					// SignJSON declined a document that holds an entry it cannot carry over: nothing was produced
+					return "SignRefused", []string{e, k, p}, nil
+				}
 				return "Sign", []string{e, k, p}, f
 			}
 			return "Sign", []string{e, k, p}, nil
@@ -342,6 +362,17 @@ func (r *recRun) act() (string, []string, *stepFailure) {
 			r.d.top["unsigned"] = v
 			r.d.rerender(rng)
 			return "EditUnsigned", []string{r.id(v), "", ""}, nil
+		case x < 90:
+			// somebody leaves something that is no signature in some place of the signatures member
+			e, k := "E"+strconv.Itoa(1+rng.Intn(3)), []string{"K1", "K2", "K3", "KA"}[rng.Intn(4)]
+			f := entryForms[rng.Intn(len(entryForms))]
+			r.d.foreignEntry(r.w.ent[e], r.w.kid[k], f, rng)
+			return "ForeignEntry", []string{e, k, f}, nil
+		case x < 92:
+			// ... or in the place of all the signatures of an entity
+			e, f := "E"+strconv.Itoa(1+rng.Intn(3)), entityForms[rng.Intn(len(entityForms))]
+			r.d.foreignEntity(r.w.ent[e], f, rng)
+			return "ForeignEntity", []string{e, "*", f}, nil
 		default:
 			r.d.pres = presTags[rng.Intn(len(presTags))]
 			r.d.rerender(rng)
@@ -352,7 +383,9 @@ func (r *recRun) act() (string, []string, *stepFailure) {
 
 func recordRun(seed int64, run int, dump bool, emit func(*recLine), fail func(hx.Result)) {
 	rng := rand.New(rand.NewSource(seedOf(seed, []byte("c02rec-run-"+strconv.Itoa(run)))))
-	r := &recRun{run: run, rng: rng, w: newWorld(rng, 3, 3, 4), name: map[string]string{}, ids: map[string]string{},
+	w := newWorld(rng, 3, 3, 4)
+	w.addAlgKid(rng)
+	r := &recRun{run: run, rng: rng, w: w, name: map[string]string{}, ids: map[string]string{},
 		past: map[string][]interface{}{}, dump: dump, labels: []string{"m1", "m2", "m3", "m4", "n1", "n2"}}
 	for i, n := range memberNames(rng, len(r.labels)) {
 		r.name[r.labels[i]] = n
@@ -380,7 +413,7 @@ func recordRun(seed int64, run int, dump bool, emit func(*recLine), fail func(hx
 
 	line := func(step int, op string, p []string) bool {
 		r.d.loneInvolved = r.d.loneInvolved || hasLone(r.d.top)
-		obs := r.w.observe(r.d.bytes)
+		obs := r.w.observe(r.d.bytes, r.d.whole())
 		if obs.Panic != "" {
 			fail(hx.Result{OK: false, Key: r.d.key("verify/panic/after=" + op), What: obs.Panic + " on " + string(r.d.bytes),
 				Extra: map[string]interface{}{"run": run, "step": step}})
@@ -399,6 +432,7 @@ func recordRun(seed int64, run int, dump bool, emit func(*recLine), fail func(hx
 			l.Doc = string(r.d.bytes)
 			l.Look = r.d.lookalike()
 			l.Lone = r.d.loneInvolved || hasLone(r.d.top)
+			l.Form = r.d.foreignForm()
 		}
 		emit(l)
 		return true
